@@ -8,6 +8,7 @@
 -/
 import Lemmas.RealCarrier
 import Lemmas.TieTactics
+import Lemmas.TieSums
 import Proofs.TieLine
 import Proofs.TieDisc
 import Generated.FnsLineShape
@@ -26,11 +27,17 @@ theorem declared_translated_hardshape :
 theorem lineshape_intersects_tie (xs ys : List (Line2 ℝ)) :
     Gen.lineshape_intersects xs ys = (Shape.line xs).intersects (Shape.line ys) := by
   unfold Gen.lineshape_intersects Shape.intersects
-  simp only [line2_intersects_tie]
+  -- `iproduct!(..).any(..)`, nested `any`s and nested `for` loops with `return true` are the same search
+  first
+  | (simp only [line2_intersects_tie]; done)
+  | (simp only [line2_intersects_tie, PV.ite_bool_id]; done)
 
 theorem lineshape_area_tie (xs : List (Line2 ℝ)) : Gen.lineshape_area xs = (Shape.line xs).area := by
   unfold Gen.lineshape_area Shape.area
-  tie_close
+  first
+  | tie_close
+  | (tie_sums; tie_close)
+  | (tie_sums; ring_nf; done)
 
 theorem lineshape_radius_tie (xs : List (Line2 ℝ)) :
     Gen.lineshape_enclosing_radius xs = (Shape.line xs).enclosingRadius := by
@@ -40,12 +47,18 @@ theorem lineshape_radius_tie (xs : List (Line2 ℝ)) :
 theorem molshape_intersects_tie (xs ys : List (Atom2 ℝ)) :
     Gen.molshape_intersects xs ys = (Shape.mol xs).intersects (Shape.mol ys) := by
   unfold Gen.molshape_intersects Shape.intersects
-  simp only [atom2_intersects_tie]
+  first
+  | (simp only [atom2_intersects_tie]; done)
+  | (simp only [atom2_intersects_tie, PV.ite_bool_id]; done)
 
 theorem molshape_area_tie (xs : List (Atom2 ℝ)) : Gen.molshape_area xs = (Shape.mol xs).area := by
   unfold Gen.molshape_area Shape.area
   simp only [circle_overlap_tie]
-  tie_close
+  -- sums written as `map(..).sum()`, `fold` or accumulation loops normalise to the same `List.sum`s
+  first
+  | tie_close
+  | (tie_sums; tie_close)
+  | (tie_sums; ring_nf; done)
 
 theorem molshape_radius_tie (xs : List (Atom2 ℝ)) :
     Gen.molshape_enclosing_radius xs = (Shape.mol xs).enclosingRadius := by
